@@ -59,9 +59,20 @@ def gen():
         o.append(byref("Integer", "&'b Integer", "Integer", op, ens, lt=True))
     # shifts by usize
     o.append(byval("Integer", "usize", "Integer", "<<", "r.v() == shl_int(self.v(), rhs as nat)"))
-    o.append(byval("Integer", "usize", "Integer", ">>", "r.v() == shr_int(self.v(), rhs as nat)"))
+    # dashu's >> is assumed to floor only for NON-NEGATIVE operands: for negative powers of two it
+    # returns 0 instead of -1 once the only set bit is shifted out (found by the C01 replay grid)
+    o.append(byval("Integer", "usize", "Integer", ">>", "self.v() >= 0 ==> r.v() == shr_int(self.v(), rhs as nat)"))
     o.append(byref("Integer", "usize", "Integer", "<<", "r.v() == shl_int(self.v(), rhs as nat)"))
-    o.append(byref("Integer", "usize", "Integer", ">>", "r.v() == shr_int(self.v(), rhs as nat)"))
+    o.append(byref("Integer", "usize", "Integer", ">>", "self.v() >= 0 ==> r.v() == shr_int(self.v(), rhs as nat)"))
+    o.append("""
+impl vstd::std_specs::ops::NotSpecImpl for Integer {
+    open spec fn obeys_not_spec() -> bool { false }
+    open spec fn not_req(self) -> bool { true }
+    open spec fn not_spec(self) -> Integer { arbitrary() }
+}
+impl core::ops::Not for Integer { type Output = Integer;
+    #[verifier::external_body] fn not(self) -> (r: Integer) ensures r.v() == -self.v() - 1 { unimplemented!() } }
+""")
     # unary minus
     o.append("""
 impl vstd::std_specs::ops::NegSpecImpl for Integer {
